@@ -2,15 +2,15 @@ from common import *
 from rpcommon import *
 ID = 'C09'
 TRANSLATORS = []
-COQ_TARGETS = ['Corr/Dispatch.vo']
+COQ_TARGETS = ['Properties_C09.vo']
 HARNESS_MODS = ['rp']
-RULE = ('wip')
+RULE = 'cases: rp.serve serial mem16 style blocksize l:allocscript h:stream l:verdicts - session histories on exact-size heap blocks handed out by a scripted, ledger-keeping allocator (ASan sees every access outside the block; the backend fills/reads exactly unit*blocksize octets of the buffer it is given); obs per round: return code, error id, frame, backend calls, reply octets, allocations, releases, foreign releases, blocks outstanding at the end.  Streams: every frame length around the receive limit and every read size around the transmit limit (and at 2^16, 2^24, 2^30, 2^31, 2^32-1) for block sizes 65.. , with and without allocation failure, short and empty frames, random and mutated-valid streams, every option-bit combination.  Non-trivial: every case; distinct = distinct lines.'
 TRUSTED_BASE = TB_COMMON + ['Model/Regp.v is hand-written from src/register-protocol.c, src/endpoints/continuable-sink.c and doc/regp.txt; tie = correspondence']
 ASSUMPTIONS = ['little-endian host']
 EXHAUSTIVE = {'quick': False, 'thorough': False}
-TECHNIQUE = 'Coq proof + correspondence'
-LEVEL_TEXT = 'wip'
-LEVEL_NOTE = 'wip'
+TECHNIQUE = 'Coq proof (reception case analysis, allocator ledger, stored-inside-block and buffer-size arithmetic, session balance by induction over rounds) + correspondence under ASan/UBSan with a ledger-keeping allocator'
+LEVEL_TEXT = "Theorems in Properties_C09.v about Model/Regp.v for any source, block size and allocator verdict: the complete case analysis of a reception (channel error -> block released by the receiver; empty frame -> bad header encoding, nothing allocated; allocation failure -> EBUSY reply; oversize frame -> ENOMEM + receive-overflow reply from the stored header octets; else the parser's verdict); every allocated block is released exactly once (receiver on channel error, caller otherwise); accepted frames lie inside the block; the read buffer handed to the backend holds the requested block and lies behind the header inside the block, otherwise ETXOVERFLOW with the buffer size; allocations = releases after every round of any session history.  Real memory accesses, crashes and hangs of the compiled code are observed by ASan/UBSan and the driver timeout on the executed cases only (partial: the model carries the index arithmetic, not the C memory model)."
+LEVEL_NOTE = 'Partial: memory safety of the compiled code is observed (ASan/UBSan) on executed cases; the theorems cover index arithmetic, classification and the ledger. Trusted: Coq kernel; hand model; correspondence. No axioms.'
 
 def gen(rng, tier):
     big = tier == 'thorough'
